@@ -116,6 +116,19 @@ fn operands() -> Vec<N> {
     for (m, s) in [(1u128, 1u32), (2, 1), (3, 1), (110, 2), (11, 1), (15, 1), (25, 2)] {
         v.push(N { neg: false, mant: m, scale: s });
     }
+    // one digit string at two scales 10^k apart where the smaller scale cannot be rescaled
+    // to the larger one within 96 bits (8 vs 0.8000...0, 79 vs 7.900...0, 80 vs 8.00...0)
+    for dgt in [7u128, 8, 9, 79, 80, 793] {
+        v.push(N { neg: false, mant: dgt, scale: 0 });
+        for (m, s) in [(dgt * 10u128.pow(27), 28), (dgt * 10u128.pow(26), 26)] {
+            if m <= MAX_MANT {
+                v.push(N { neg: false, mant: m, scale: s });
+            }
+        }
+    }
+    // negative zero (what unary minus makes of zero) at two scales
+    v.push(N { neg: true, mant: 0, scale: 0 });
+    v.push(N { neg: true, mant: 0, scale: 2 });
     v
 }
 
@@ -204,6 +217,11 @@ fn check_arith(op: &str, a: &N, b: &N, literal: bool, stage: &str, out: &mut Wor
                     out.outcomes.insert("exact".into());
                     let gs = canonical_of(g);
                     if gs != w {
+                        // shape of the operand pair: can the operand of smaller scale be brought to
+                        // the larger scale within 96 bits? (rust_decimal's remainder goes wrong when not)
+                        let (lo, hi) = if a.scale <= b.scale { (a, b) } else { (b, a) };
+                        let aligned = lo.mant.checked_mul(10u128.pow(hi.scale - lo.scale)).map(|m| m <= MAX_MANT).unwrap_or(false);
+                        let key = if aligned { key.clone() } else { format!("{}:scale-alignment-overflows-96-bits", op) };
                         out.fail(format!("inexact:{}", key), case, format!("exact result {} but engine returned {} ({})", w, g, gs));
                     } else {
                         out.count("validated", 1);
